@@ -552,6 +552,7 @@ pub fn defkind_str(k: DefKind) -> String {
         DefKind::Const { .. } => "Const".to_string(),
         DefKind::AssocConst { .. } => "AssocConst".to_string(),
         DefKind::Static { .. } => "Static".to_string(),
+        DefKind::Impl { .. } => "Impl".to_string(),
         other => format!("{:?}", other),
     }
 }
